@@ -128,6 +128,13 @@ func pfResolve(c *corpus, s pfSpec) *pfFun {
 		// a struct result: one component per scalar field, in declaration order
 		_, isStruct := types.Unalias(rt).Underlying().(*types.Struct)
 		names, kinds := pfStructFields(rt)
+		if _, ptr := types.Unalias(rt).(*types.Pointer); ptr && pfPtrStruct(rt) {
+			// a pointer-to-struct result (emit_purefuns_ptr.go): one component, option of the fields
+			g.resK = append(g.resK, pfPtrKind(kinds))
+			g.resShape, g.resFieldK, g.resNil = append(g.resShape, names), append(g.resFieldK, kinds), append(g.resNil, false)
+			g.setResPtr(i)
+			continue
+		}
 		if _, ptr := types.Unalias(rt).(*types.Pointer); ptr || !isStruct || len(names) == 0 {
 			g.unrec = append(g.unrec, "result of untranslated type "+rt.String())
 			g.decl = nil
@@ -174,7 +181,11 @@ func (t *pfTr) translateFun(g *pfFun) {
 		case "list":
 			en[r] = "(@nil Z)"
 		case "":
-			en[r] = t.newStruct(&pfStruct{over: map[string]string{}}) // a struct result: the zero value
+			if _, ptr := types.Unalias(r.Type()).(*types.Pointer); ptr {
+				en[r] = "0" // a pointer result: nil
+			} else {
+				en[r] = t.newStruct(&pfStruct{over: map[string]string{}}) // a struct result: the zero value
+			}
 		default:
 			en[r] = "0"
 		}
